@@ -260,6 +260,14 @@ fn one_pass<T: Sc, F: Factory<T>>(sc: &Scenario, rep: &mut RunReport, first: boo
                             }
                             if snap_now.resid.is_none() {
                                 rep.probe("cache_empty_after_clean_update");
+                                // why: non-finite basis at these parameters, or a decomposition
+                                // the library rejected (non-finite singular values / no convergence)
+                                let pw = crate::refmath::phi_w::<T>(&r.world.spec, &r.world.x, r.world.w.as_ref(), &alpha);
+                                if pw.iter().all(|v| v.f().is_finite()) {
+                                    rep.probe("cache_emptied_by_rejected_decomposition");
+                                } else {
+                                    rep.probe("cache_emptied_by_nonfinite_basis");
+                                }
                             }
                             let pk = prev_kinds[prev_kinds.len().saturating_sub(2)..].join(">");
                             sig.push_str(&format!(
